@@ -362,13 +362,18 @@ def r3c_walk_model(rep, facts):
         return set()
     I = 'toml_edit::item::Item::'
 
-    def T(implicit, dotted, tag):
-        return ('struct', 'toml_edit::table::Table', {'implicit': implicit, 'dotted': dotted, 'items': (), 'tag': tag})
+    def T(implicit, dotted, tag, items=()):
+        return ('struct', 'toml_edit::table::Table', {'implicit': implicit, 'dotted': dotted, 'items': items, 'tag': tag})
+    key = lambda n: ('struct', 'toml_edit::key::Key', {'key': n})
 
     def entries():
         yield 'a value', ('ctor', I + 'Value', (('ctor', 'toml_edit::value::Value::Integer', (('opaque',),)),))
         yield 'an array of tables', ('ctor', I + 'ArrayOfTables', (('struct', 'toml_edit::array_of_tables::ArrayOfTables',
                                                                     {'values': VecObj([('ctor', I + 'Table', (T(False, False, 'first'),)), ('ctor', I + 'Table', (T(False, False, 'last'),))])}),))
+        # ... whose last element already holds the path's next segment as a table made by dotted keys (`[[a.b]]` / `c.x = 1` / `[a]` / `b.c.y = 2`)
+        inner = ((key('k1'), ('ctor', I + 'Table', (T(True, True, 'inner'),))),)
+        yield 'an array of tables', ('ctor', I + 'ArrayOfTables', (('struct', 'toml_edit::array_of_tables::ArrayOfTables',
+                                                                    {'values': VecObj([('ctor', I + 'Table', (T(False, False, 'first'),)), ('ctor', I + 'Table', (T(False, False, 'last', inner),))])}),))
         yield 'a [table]', ('ctor', I + 'Table', (T(False, False, 't'),))
         yield 'a header-implied table', ('ctor', I + 'Table', (T(True, False, 't'),))
         yield 'a dotted-key table', ('ctor', I + 'Table', (T(True, True, 't'),))
@@ -376,13 +381,16 @@ def r3c_walk_model(rep, facts):
     try:
         for kind in ('dotted', 'header'):
             for n in (1, 2):
+                seen = {}
                 for name, e in entries():
+                    seen[name] = seen.get(name, 0) + 1
+                    variant = '' if seen[name] == 1 else ' (its last element holds the next segment)'
                     it = RecInterp(ev, set(), stubs={'or_insert_with': e, 'or_insert': e})
                     path = tuple(('struct', 'toml_edit::key::Key', {'key': f'k{i}'}) for i in range(n))
                     try:
                         r = it.apply_fn(b, [T(False, False, 'start'), path, kinds[kind]])
                     except EvalPanic as ex:
-                        rep.bad(R, f'{kind}|{n}|{name}', f'the {kind} walk over {n} segment(s) panics when it finds {name}: {ex}', facts.loc(b))
+                        rep.bad(R, f'{kind}|{n}|{name}{variant}', f'the {kind} walk over {n} segment(s) panics when it finds {name}{variant}: {ex}', facts.loc(b))
                         continue
                     is_err = isinstance(r, tuple) and r[:2] == ('ctor', ERR)
                     is_ok = isinstance(r, tuple) and r[:2] == ('ctor', OK)
@@ -405,8 +413,8 @@ def r3c_walk_model(rep, facts):
                     else:
                         ok, want = tag == 't', 'that table'
                     got = 'an error' if is_err else f'the table `{tag}`'
-                    rep.check(R, f'{kind}|{n}|{name}', ok, f'{got}',
-                              f'`state::ParseState::descend_path`: the {kind} walk along {n} segment(s) that finds {name} gives {got}, TOML demands {want}: '
+                    rep.check(R, f'{kind}|{n}|{name}{variant}', ok, f'{got}',
+                              f'`state::ParseState::descend_path`: the {kind} walk along {n} segment(s) that finds {name}{variant} gives {got}, TOML demands {want}: '
                               + ('a dotted key extends a table that a header already defined' if kind == 'dotted' and not is_err else 'a definition TOML permits is refused, or the wrong table is extended'),
                               facts.loc(b))
     except Unanalysable as ex:
